@@ -385,7 +385,10 @@ Proof.
               match par (get hc v) with
               | Some q => if negb (Nat.eqb q t)
                           then (if existsb (Nat.eqb v) (kids (get hc q))
-                                then K (upd hc q (fun T_ => with_kids (remove1 v (kids T_)) T_)) else K hc)
+                                then (if existsb (Nat.eqb v) (kids (get hc q))
+                                      then K (upd hc q (fun T_ => with_kids (remove1 v (kids T_)) T_))
+                                      else Crash ValueError)
+                                else K hc)
                           else K hc
               | None => K hc
               end = K (adopt_h1 t hc v)).
